@@ -14,9 +14,10 @@ const USERS: [&[u8]; 3] = [b"alice", b"bob", b"carol"];
 
 pub fn run(ctx: &Ctx) -> i32 {
     let mon = Mon::new();
-    let small = ctx.mode.as_deref() == Some("small");
-    let n = if small { 256 } else { ctx.tier.pick(20_000, 1_000_000) };
-    let chunks = if small { 4u64 } else { 64u64 };
+    let miri = ctx.mode.as_deref() == Some("miri");
+    let small = ctx.mode.as_deref() == Some("small") || miri;
+    let n = if miri { 12 } else if small { 256 } else { ctx.tier.pick(20_000, 1_000_000) };
+    let chunks = if miri { 1u64 } else if small { 4u64 } else { 64u64 };
     par_cases(ctx, &mon, "seq", chunks, |cc, rng, l| {
         for i in 0..(n / chunks) {
             let mut r2 = Rng::derive(rng.next_u64(), "c15", i);
@@ -30,10 +31,10 @@ pub fn run(ctx: &Ctx) -> i32 {
             "exploration",
             "random operation sequences (5-40 ops) over 3 users x epochs 1-6, 4 node keys and the epoch record: set / batch_set / get / batch_get / get_user_data / get_user_state and get_user_state_versions with each retrieval flag (parameters around existing epochs and versions +-1) / begin / commit / rollback / tombstone, well-formed data (versions increase with epochs, rewriting (user, epoch) keeps its version), cached and uncached managers. Every read is compared with the same read on a transaction-free uncached manager over a shadow database that received all writes immediately; commit must hand the database exactly the pending records (last write per key) with the epoch record last; rollback must discard them; a second begin must be refused. distinct = (read kind, flag, provenance of the answer: db only / pending only / both, pending newer / both, db newer); non-trivial = read inside a transaction with pending writes for the user/key",
         )
-        .need("sequences", if small { 100 } else { ctx.tier.pick(10_000, 500_000) })
-        .need("reads_inside_transaction_compared", if small { 100 } else { ctx.tier.pick(50_000, 2_000_000) })
-        .need("commits_checked", if small { 10 } else { ctx.tier.pick(5_000, 200_000) })
-        .need("rollbacks_checked", if small { 5 } else { ctx.tier.pick(2_000, 100_000) }),
+        .need("sequences", if miri { 10 } else if small { 100 } else { ctx.tier.pick(10_000, 500_000) })
+        .need("reads_inside_transaction_compared", if miri { 5 } else if small { 100 } else { ctx.tier.pick(50_000, 2_000_000) })
+        .need("commits_checked", if miri { 1 } else if small { 10 } else { ctx.tier.pick(5_000, 200_000) })
+        .need("rollbacks_checked", if miri { 0 } else if small { 5 } else { ctx.tier.pick(2_000, 100_000) }),
     )
 }
 
